@@ -579,5 +579,70 @@ def selftest(tier, seed):
         print("%-14s %-8s violated=%s states=%d" % (name, module, r["violated"], r["states"]))
         if not r["violated"]:
             bad += 1
+    # ---- binding: a corrupted recording must be rejected by the trace specifications ---------------
+    import random as _r
+    rng = _r.Random(seed)
+    import gen
+    scs = []
+    for i, kind in enumerate(["vec", "iter", "slice", "array", "refiter", "vec", "iter", "cloned_slice"] * 6):
+        sc = gen.concurrent(rng, i + 1, kind, hint="exact") if i % 2 else gen.sequential(rng, i + 1, kind, p_skip=0.0)
+        scs.append(sc)
+    wd = os.path.join(WORK, "selftest")
+    parts, info = engine.run_scenarios(scs, wd, "rel", jobs=1)
+    lines = open(parts[0]).read().splitlines()
+    base = engine.validate(parts, ALL_SPECS)
+    ok0 = not any(base[s]["viol"] for s in ("TraceProps", "TraceHB")) and not any(base[s]["div"] for s in ALL_SPECS)
+    print("binding baseline: clean =", ok0)
+    if not ok0:
+        bad += 1
+
+    def variant(name, edit, expect):
+        nonlocal bad
+        out = []
+        done = False
+        for ln in lines:
+            e = json.loads(ln)
+            if not done:
+                r = edit(e)
+                if r == "delete":
+                    done = True
+                    continue
+                if r:
+                    done = True
+                    ln = json.dumps(e)
+            out.append(ln)
+        p2 = os.path.join(wd, "corrupt_%s.ndjson" % name)
+        open(p2, "w").write("\n".join(out) + "\n")
+        v = engine.validate([p2], ALL_SPECS)
+        got = set(f for _, f in v["TraceProps"]["viol"] + v["TraceHB"]["viol"]) | set("div:" + d[2] for s in ALL_SPECS for d in v[s]["div"])
+        hit = bool(got & expect)
+        print("binding %-18s edited=%s reported=%s  %s" % (name, done, sorted(got)[:6], "ok" if hit and done else "NOT REJECTED"))
+        if not (hit and done):
+            bad += 1
+
+    def e_val(e):
+        if e["e"] == "Ret" and e["res"].get("k") == "item":
+            e["res"]["val"] += 1
+            return True
+    def e_ord(e):
+        if e["e"] == "A" and e["op"] == "ld" and e["loc"] == 1 and e["ord"] == "Acquire" and e["t"] > 0:
+            e["ord"] = "Relaxed"
+            return True
+    def e_drop(e):
+        if e["e"] == "DropElem":
+            return "delete"
+    def e_saw(e):
+        if e["e"] == "A" and e["op"] == "fa" and e["loc"] == 0:
+            e["saw"] += 1
+            return True
+    def e_len(e):
+        if e["e"] == "Ret" and e["res"].get("k") == "chunk" and len(e["res"]["lens"]) > 1:
+            e["res"]["lens"][1] += 1
+            return True
+    variant("value", e_val, {"Value", "Index", "NoDup", "div:return"})
+    variant("ordering", e_ord, {"Race", "div:load-yielded"})
+    variant("missing-drop", e_drop, {"OwnNever", "div:return", "div:drop"})
+    variant("observed-value", e_saw, {"div:fetch_add", "div:reserve"})
+    variant("chunk-len", e_len, {"ChunkLen", "div:return"})
     print("selftest:", "FAILED" if bad else "ok")
     return 1 if bad else 0
